@@ -240,10 +240,10 @@ Qed.
 (* partial order *)
 Lemma pcmp_spec s o : cs_valid s -> cs_valid o ->
   match cs_pcmp s o with
-  | PEq => s = o
-  | PLt => s <> o /\ forall x y, mem x s -> mem y o -> x < y
-  | PGt => s <> o /\ forall x y, mem x s -> mem y o -> y < x
-  | PNone => s <> o /\ exists x y x' y', mem x s /\ mem y o /\ mem x' s /\ mem y' o /\ x <= y /\ y' <= x'
+  | OrdEq => s = o
+  | OrdLt => s <> o /\ forall x y, mem x s -> mem y o -> x < y
+  | OrdGt => s <> o /\ forall x y, mem x s -> mem y o -> y < x
+  | OrdNone => s <> o /\ exists x y x' y', mem x s /\ mem y o /\ mem x' s /\ mem y' o /\ x <= y /\ y' <= x'
   end.
 Proof.
   destruct s as [a b], o as [c d]; unfold cs_pcmp, cs_eqb, cs_valid, mem; simpl fst; simpl snd.
